@@ -206,6 +206,20 @@ def lineage_rules(ctx, rng, n):
                 checks.append(("scheduled", "Z", kk))
             elif ru[0] == "ode":
                 checks.append(("ode", "W", None))
+        # the lineage loop model (C19) reproduces the run bit for bit, rules included
+        from props import C19
+        lspec = {"vol_rules": [], "div_rules": [], "death_rules": [], "vol_events": [], "div_events": [], "death_events": [],
+                 "splitters": [], "vol0": 1.0}
+        a = driver_batch([C19.lineage_job(lspec, M, [float(t) for t in T], seed, True)])[0]
+        if a.get("status") == "ok":
+            mrows = [[b2f(v) for v in row] for row in a["rows"]]
+            if mrows != rows.tolist():
+                k = next((j for j, (x, y) in enumerate(zip(mrows, rows.tolist())) if x != y), min(len(mrows), len(rows)))
+                ctx.broke("corr_C09_lineage_rows_bit_exact", dict(case, seed=seed, difference="row %d: model %s implementation %s" % (
+                    k, mrows[k] if k < len(mrows) else None, rows.tolist()[k] if k < len(rows) else None)))
+            ctx.count("lineage_bit_exact")
+        elif a.get("status") not in ("out-of-fuel", "bad"):
+            ctx.broke("corr_C09_lineage_rows_bit_exact", dict(case, seed=seed, difference="model: %s" % a.get("status", a.get("error"))))
         if rows.shape[0] == len(T):
             rows_oracle(ctx, spec, checks, sl, rows, T, "lineage", seed)
             ctx.nontriv(("lineage", k, tuple(sorted(cc[0] for cc in checks)), len(T)))
